@@ -235,6 +235,9 @@ def secrecy_taint(prog, chk, pid):
                     inner = unsnap(v.args[1][0])
                     alts = [inner] if inner.op != "phi" else [unsnap(inner.args[1]), unsnap(inner.args[2])]
                     return all(is_const(x) or is_call_named(x, "create_from_prj_settings", "create_from_dev_settings") for x in alts)
+                if v.op == "call" and isinstance(v.args[0], Term) and v.args[0].op in ("func", "bound") and str(v.args[0].args[0]).endswith("ConfigId.__str__") and len(v.args[1]) <= 1:
+                    # str() of an identifier OBJECT (the factory was interpreted, e.g. because it now lives in a mixin): its text form, which C12 decides
+                    return True
                 return False
 
             if not clean(e.d["value"]):
